@@ -38,9 +38,9 @@ pub open spec fn g_init<T>() -> G<T> { G { dn: dn_init(), up: up_init(), p_calls
 #[verifier::external_body] pub fn fresh_heap() -> (h: Heap) ensures !h.alloc_talkback { unimplemented!() }
 
 //@include passthrough_common.rs TP=T G=G<T> HEAP=Heap
-//@invpart safe @C17 the upstream talkback is stored before it is used
-//@invpart data @C07 filter: output is the sub-list of the input satisfying the predicate, predicate applied once per item
-//@invpart pull @C14 demand conservation: rejected items are re-requested, outstanding demand is carried upstream
+//@invpart safe @C17,C04 the upstream talkback is stored before it is used
+//@invpart data @C07,C06 filter: output is the sub-list of the input satisfying the predicate, predicate applied once per item
+//@invpart pull @C14,C06 demand conservation: rejected items are re-requested, outstanding demand is carried upstream
 pub open spec fn inv_safe<T>(h: Heap, g: G<T>, c: Cap) -> bool {
     up_greeted(g.up.phase) ==> h.talkback is Some
 }
